@@ -5,6 +5,7 @@ import ElfVerif.Lemmas.Stream
 import ElfVerif.Lemmas.StreamTotal
 import ElfVerif.Lemmas.ReaderInv
 import ElfVerif.Lemmas.LazyIO
+import ElfVerif.Lemmas.OpenLazyAny
 namespace Elf.C08
 
 /-- Every buffer allocation recorded in the trace is at most the stream length. -/
@@ -224,6 +225,27 @@ theorem query_io_is_designated (q : Query) (s : ElfStream) :
 theorem open_is_lazy (sp : Spec) (dev : Device) (s : ElfStream) (d : Device)
     (h : openStream sp dev = (.ok s, d)) :
     ∃ d1, dev.seekEnd.2 = d1 ∧ Ext (OpenRange s.ehdr) d1 s.reader.dev := openStream_lazy sp dev s d h
+
+/-- **Opening is lazy whatever it returns** — success, a parse error, an I/O failure at any call, under any schedule:
+    every I/O event after the stream's length was measured lies in the 16 identification bytes; or, only if those
+    bytes (as the stream's contents hold them) are an acceptable identification for the spec, in the rest of the file
+    header; or, only if that header parses, in whole section-header-sized entries at its `e_shoff` / whole
+    program-header-sized entries at its `e_phoff`.  The ranges are determined by the file, not by what went wrong. -/
+theorem open_is_lazy_whatever_it_returns (sp : Spec) (dev : Device) :
+    Ext (OpenRangeOf sp dev.content) dev.seekEnd.2 (openStream sp dev).2 := openStream_lazy_any sp dev
+
+/-- …in particular a stream whose first 16 bytes are not an acceptable identification is never read beyond them. -/
+theorem bad_ident_reads_ident_only (sp : Spec) (dev : Device) (er : Err)
+    (h : parseIdent sp (identOf dev.content) = .err er) :
+    Ext (fun s e => s = 0 ∧ e = Abi.EI_NIDENT) dev.seekEnd.2 (openStream sp dev).2 := by
+  refine Ext.mono (fun s e hse => ?_) (openStream_lazy_any sp dev)
+  rcases hse with h0 | ⟨ident, hid, _⟩
+  · exact h0
+  · rw [h] at hid; cases hid
+
+/- Non-vacuity: sixteen bytes with a wrong magic are such contents -/
+example : parseIdent .any (identOf #[0x7f, 0x45, 0x4c, 0x00, 2, 1, 1, 0, 0, 0, 0, 0, 0, 0, 0, 0, 9, 9]) =
+    .err (.BadMagic 0x7f 0x45 0x4c 0x00) := by decide
 
 /-- reading `Ext`: a completed load recorded during a query is the load of a designated range -/
 theorem loads_are_designated (q : Query) (s : ElfStream) (a len : Nat) (pre post : List IoEvent)
